@@ -789,8 +789,17 @@ def rule_R28(toks: List[Tok], err: str, rep: Report, fn: str) -> List[Tok]:
         t = toks[i]
         if t.kind == "ident" and t.text == "ensure" and i + 2 < len(toks) and is_p(toks[i + 1], "!") and is_p(toks[i + 2], "("):
             close = match_close(toks, i + 2)
-            parts = split_top(toks[i + 3:close], ",")
-            cond = list(parts[0])
+            # first comma at bracket depth 0 (an expression: `<` is a comparison here, not a generic bracket)
+            cond, d = [], 0
+            for tt in toks[i + 3:close]:
+                if tt.kind == "punct":
+                    if tt.text in OPEN:
+                        d += 1
+                    elif tt.text in CLOSE:
+                        d -= 1
+                    elif tt.text == "," and d == 0:
+                        break
+                cond.append(tt)
             if not cond:
                 raise Undecided(f"R28: ensure! without a condition in {fn}")
             cond[0] = Tok(cond[0].kind, cond[0].text, cond[0].pos, "")
